@@ -234,6 +234,9 @@ func (h *History) policyBefore(i int) *Policy {
 // PolicyInForceAt returns the policy state in force for entry i.
 func (h *History) PolicyInForceAt(i int) *Policy { return h.policyBefore(i) }
 
+// AttInForceAt returns the attestation state recorded strictly before entry i.
+func (h *History) AttInForceAt(i int) *AttState { return h.attBefore(i) }
+
 func (h *History) attBefore(i int) *AttState {
 	for j := i - 1; j >= 0; j-- {
 		if h.Entries[j].Kind == AttestEntry {
